@@ -81,6 +81,7 @@ func cmdCheck(args []string) int {
 	budget := fs.Duration("budget", 0, "time budget for exploration (0 = none)")
 	noEvidence := fs.Bool("no-evidence", false, "do not write the evidence file")
 	cpuprof := fs.String("cpuprofile", "", "write a CPU profile")
+	cross := fs.String("cross", "auto", "second solver for assertion queries: none|cvc5|z3-new|auto (thorough: cvc5)")
 	if len(args) < 1 {
 		fmt.Fprintln(os.Stderr, "check: property id required")
 		return 2
@@ -103,6 +104,15 @@ func cmdCheck(args []string) int {
 	env.verbose = *verbose
 	if *tier == "thorough" {
 		env.preemptBound = 3
+	}
+	switch *cross {
+	case "auto":
+		if *tier == "thorough" {
+			env.crossKind = "cvc5"
+		}
+	case "none":
+	default:
+		env.crossKind = *cross
 	}
 	loadT := time.Since(t0)
 	hs := env.harnesses("H_" + prop + "_")
@@ -220,6 +230,8 @@ func cmdCheck(args []string) int {
 	ev.funcs = funcs
 	ev.reached = reached
 	ev.shapes = len(insts)
+	ev.crossKind = env.crossKind
+	ev.crossQueries = env.crossQueries
 	ev.loadS = loadT.Seconds()
 	ev.exploreS = exploreT.Seconds()
 
